@@ -87,6 +87,9 @@ def _r1(repo, run, vanished):
                        (isinstance(par, ast.Call) and isinstance(par.func, ast.Name) and par.func.id in ('getattr', 'hasattr', 'setattr', 'delattr') and par.args and par.args[0] is node and len(par.args) > 1 and isinstance(par.args[1], ast.Constant))
                 if isinstance(par, ast.Global):
                     fine = False
+                if not fine and isinstance(par, ast.Call) and node in par.args and isinstance(par.func, ast.Name) and par.func.id in m.functions:
+                    # handed to a function of the same module that itself touches its parameter only through the per-thread attribute
+                    fine = _param_only_via_attribute(m.functions[par.func.id], par.args.index(node), m, 0)
                 if fine:
                     continue
                 run.violation('C20.R1', (m.relpath, node.lineno, slot), norm(par)[:120] if par is not None else slot, 'the thread-local object %s itself is rebound / passed around instead of being accessed through its per-thread attribute' % slot)
@@ -205,6 +208,26 @@ def _save_restore(repo, run, fi, slot, what):
         run.violation('C20.R3', fi, '%s save/restore' % fi.name, 'the previous %s is not restored in a finally block' % what)
     else:
         run.ok('C20.R3', fi, '%s: old = slot; slot = new; try: body finally: slot = old' % fi.name)
+
+
+def _param_only_via_attribute(g, index, m, depth):
+    a = g.node.args
+    ps = a.posonlyargs + a.args
+    if index >= len(ps) or depth > 2:
+        return False
+    pname = ps[index].arg
+    for n in ast.walk(g.node):
+        if isinstance(n, ast.Name) and n.id == pname:
+            if isinstance(n.ctx, (ast.Store, ast.Del)):
+                return False
+            par = getattr(n, '_parent', None)
+            ok = (isinstance(par, ast.Attribute) and par.value is n) or \
+                 (isinstance(par, ast.Call) and isinstance(par.func, ast.Name) and par.func.id in ('getattr', 'hasattr', 'setattr', 'delattr') and par.args and par.args[0] is n and len(par.args) > 1 and isinstance(par.args[1], ast.Constant))
+            if not ok and isinstance(par, ast.Call) and n in par.args and isinstance(par.func, ast.Name) and par.func.id in m.functions:
+                ok = _param_only_via_attribute(m.functions[par.func.id], par.args.index(n), m, depth + 1)
+            if not ok:
+                return False
+    return True
 
 
 def r3(repo, run):
